@@ -41,6 +41,7 @@ REQUIRED = {
     "centre_points": 250,
     "outside_points": 300,
     "bc_approach_points": 300,
+    "bc_outside_points": 100,
     "insertions_checked": 600,
     "compiled_inserter_compared": 100,
     "redzone_interpolations": 200,
@@ -325,6 +326,24 @@ def run_shard(spec: dict) -> ShardResult:
                             break
                         if cond_["kind"] == "value" and lam > 0.9 and abs(have - v) > tol + 1e-6 * abs(v - c1):
                             res.violation("value at the wall differs from the imposed Dirichlet value", case, have=have, want=v)
+                    # beyond the wall (clearly outside, also by less than half a cell): error or fill value
+                    for beyond in (float(rng.uniform(0.02, 0.48)), float(rng.uniform(0.52, 3.0))):
+                        p = centre.copy()
+                        p[axis] += (1 if upper else -1) * (0.5 + beyond) * dx
+                        case = {**case0, "bc": spec_data, "axis": axis, "upper": upper, "cells_beyond_the_wall": beyond, "point": p.tolist()}
+                        res.count("bc_outside_points")
+                        try:
+                            have = f.interpolate(p, bc=spec_data)
+                            res.violation("interpolate(bc=...) returned a value for a point outside the domain instead of raising", case, have=have)
+                        except Exception as exc:
+                            if type(exc).__name__ not in ("DomainError", "ValueError"):
+                                res.violation(f"interpolate(bc=...) outside the domain raised {type(exc).__name__}: {str(exc)[:200]}", case)
+                        try:
+                            have = f.interpolate(p, bc=spec_data, fill=-77.5)
+                            if not np.all(np.asarray(have) == -77.5):
+                                res.violation("interpolate(bc=..., fill=...) did not return the fill value for a point outside the domain", case, have=have)
+                        except Exception as exc:
+                            res.violation(f"interpolate(bc=..., fill=...) raised {type(exc).__name__}: {str(exc)[:200]}", case)
                     res.case((gkey, cond_["kind"], upper, "bc_approach"))
 
         # ---- interpolate_to_grid ----------------------------------------------------------
